@@ -594,8 +594,8 @@ def fnReverse (ev : Arg → M Val) : List Arg → M Val
     | _ => stop .panic
   | _ => stop .panic
 
-/-- asm/append.go: a new array (Go's `append` may reuse spare capacity of the argument's backing array; that
-is not visible through the argument itself, see the registry for the aliasing it can cause) -/
+/-- asm/append.go: a new array (since de3017e the code builds one with `make`/`copy`; before, Go's built-in `append`
+reused spare capacity of the argument's backing array: finding C20-append-shares-backing, fixed) -/
 def fnAppend (ev : Arg → M Val) : List Arg → M Val
   | [a, b] => do
     let v ← ev a
